@@ -163,8 +163,11 @@ def mkvalue(v, env):
     if kind == "dict" and len(v) > 2:
         # dict subclasses that answer [] for absent keys (Counter: 0; defaultdict: inserts the default)
         if v[2] == "counter":
-            return _collections.Counter(v[1])
-        return _collections.defaultdict(int, v[1])
+            return _collections.Counter(dkd(v[1]))
+        return _collections.defaultdict(int, dkd(v[1]))
+    if kind == "dict":
+        import copy
+        return dkd(copy.deepcopy(v[1]))
     if kind in ("int", "str", "list", "dict", "lstr"):
         import copy
         return copy.deepcopy(v[1])
@@ -194,6 +197,16 @@ def mkvalue(v, env):
     if kind == "path":
         return env.path(v[1])
     raise ValueError(kind)
+
+
+def dk(k):
+    """Dict keys in JSON are strings; "#1" stands for the int 1 (dicts whose keys cannot be ordered
+    against each other, like {1: .., "a": ..}, are dicts too)."""
+    return int(k[1:]) if isinstance(k, str) and k.startswith("#") and k[1:].lstrip("-").isdigit() else k
+
+
+def dkd(d):
+    return {dk(k): v for k, v in d.items()}
 
 
 def const(c):
@@ -268,13 +281,13 @@ def build(e, env):
             return M.MatchesSetwise(*([shared] * len(e[1])))
         return M.MatchesSetwise(*[B(x) for x in e[1]])
     if op == "KeysEqual":
-        return M.KeysEqual(*e[1])
+        return M.KeysEqual(*[dk(k) for k in e[1]])
     if op == "MatchesDict":
-        return M.MatchesDict({k: B(x) for k, x in e[1].items()})
+        return M.MatchesDict({dk(k): B(x) for k, x in e[1].items()})
     if op == "ContainsDict":
-        return M.ContainsDict({k: B(x) for k, x in e[1].items()})
+        return M.ContainsDict({dk(k): B(x) for k, x in e[1].items()})
     if op == "ContainedByDict":
-        return M.ContainedByDict({k: B(x) for k, x in e[1].items()})
+        return M.ContainedByDict({dk(k): B(x) for k, x in e[1].items()})
     if op == "MatchesStructure":
         return M.MatchesStructure(**{k: B(x) for k, x in e[1].items()})
     if op == "MatchesStructureByEquality":
@@ -404,13 +417,13 @@ def sem(e, v, env, raw=None):
         table = [[S(m, x) for m in e[1]] for x in vals]
         return perfect_matching_exists(len(vals), len(e[1]), lambda i, j: table[i][j])
     if op == "KeysEqual":
-        return sorted(v.keys()) == sorted(e[1])
+        return set(v.keys()) == {dk(k) for k in e[1]} and len(set(e[1])) == len(e[1])
     if op == "MatchesDict":
-        return set(v) == set(e[1]) and all([S(m, v[k]) for k, m in e[1].items() if k in v])
+        return set(v) == set(dkd(e[1])) and all([S(m, v[k]) for k, m in dkd(e[1]).items() if k in v])
     if op == "ContainsDict":
-        return set(e[1]) <= set(v) and all([S(m, v[k]) for k, m in e[1].items() if k in v])
+        return set(dkd(e[1])) <= set(v) and all([S(m, v[k]) for k, m in dkd(e[1]).items() if k in v])
     if op == "ContainedByDict":
-        return set(v) <= set(e[1]) and all([S(m, v[k]) for k, m in e[1].items() if k in v])
+        return set(v) <= set(dkd(e[1])) and all([S(m, v[k]) for k, m in dkd(e[1]).items() if k in v])
     if op == "MatchesStructure":
         return all([S(m, getattr(v, k)) for k, m in e[1].items()])
     if op == "MatchesStructureByEquality":
@@ -489,14 +502,17 @@ def is_warning_domain(e):
 # --------------------------------------------------------------------------------------------
 # pools and generators
 
-INT_POOL = [-3, -1, 0, 1, 2, 3, 5, 6]
+# 1, True and 1.0 are == and hash alike, yet are different values to preprocessors such as str
+INT_POOL = [-3, -1, 0, 1, 2, 3, 5, 6, True, 1.0]
 STR_POOL = ["", "a", "ab", "abc", "b", "A", "\xe9", "a\nb", "a'b\"c", "\\", "\x00x", "zz\x7f",
             "\U0001f600", "line1\nline2\n", "ab ab", "'''", 'say "hi"\n', "tab\there", "caf\xe9 ☃"]
 BYTES_POOL = ["", "61", "6162", "fffe", "610a62", "00", "636166c3a9", "27225c"]
 LIST_POOL = [[], [1], [1, 2], [2, 1], [1, 1], [1, 2, 3], [3, 3, 3], [0, -1, 5], [2, 2, 1, 1], [6, 5, 3, 2, 1],
              [1, 2, 2], [1, 1, 2], [2, 1, 2]]
 DICT_POOL = [{}, {"a": 1}, {"a": 2}, {"a": 1, "b": 2}, {"b": 2}, {"a": 0, "b": 0, "c": 3}, {"\xe9": 1},
-             {"a": 0}, {"a": 1, "b": 0}]
+             {"a": 0}, {"a": 1, "b": 0},
+             # keys of different types, which cannot be ordered against each other ("#1" is the int 1)
+             {"#1": 1, "a": 2}, {"#1": 0, "a": 0, "b": 1}, {"#1": 1}]
 OBJ_POOL = [{"a": 1, "b": 2, "s": "ab"}, {"a": 0, "b": 0, "s": ""}, {"a": -1, "b": 5, "s": "\xe9"},
             {"a": 2, "b": 2, "s": "a\nb"}]
 EXC_POOL = [["ValueError", ["x"]], ["ValueError", ["\xe9"]], ["ValueError", []], ["KeyError", ["k"]],
@@ -577,7 +593,8 @@ def leaves(domain, rng=None):
               ["Equals", []]]
     elif domain == "dict":
         L += [["Equals", {"a": 1}], ["Equals", {}], ["KeysEqual", ["a"]], ["KeysEqual", ["a", "b"]],
-              ["KeysEqual", ["b", "a"]], ["KeysEqual", ["c", "a", "b"]],
+              ["KeysEqual", ["b", "a"]], ["KeysEqual", ["c", "a", "b"]], ["KeysEqual", ["#1", "a"]],
+              ["KeysEqual", ["a", "#1", "b"]],
               ["KeysEqual", []], ["HasLength", 1], ["Contains", "a"], ["IsInstance", ["dict"]]]
     elif domain == "obj":
         L += [["MatchesStructureByEquality", {"a": 1}], ["MatchesStructureByEquality", {"a": 0, "s": ""}],
@@ -628,7 +645,7 @@ def combos(domain, subs, rng, depth):
         out.append(lambda: ["MatchesSetwise", [subs(el) for _ in range(rng.randint(2, 4))]])
         out.append(lambda: ["MatchesSetwise", [subs(el)] * rng.randint(1, 3), True])
     if domain == "dict":
-        keys = ["a", "b", "c", "\xe9"]
+        keys = ["a", "b", "c", "\xe9", "#1"]
         for op in ("MatchesDict", "ContainsDict", "ContainedByDict"):
             out.append(lambda op=op: [op, {k: subs("int") for k in rng.sample(keys, rng.randint(0, 3))}])
     if domain == "obj":
